@@ -87,8 +87,16 @@ DecStep ==
             ELSE IF ~TruncRel(NormSeq(Ev.vals), NormSeq(Ev.intent)) THEN Say("DEC", "truncated encoding decoded to data that was not there")
             ELSE TRUE
 
+\* arrays too large for the reference decoder: the harness compares decode(encode(v)) with v itself
+EncBigStep ==
+    IF ~IsOk(Ev.res) THEN Say("ENC", "encoder refused a value the format can express: " \o Ev.res)
+    ELSE IF ~IsOk(Ev.dres) THEN Say("RT", "encoded bytes fail to decode: " \o Ev.dres)
+    ELSE IF ~Ev.same THEN Say("RT", "decode(encode(v)) differs from v (array of " \o ToString(Ev.n) \o " elements)")
+    ELSE TRUE
+
 Step == /\ l <= NRec
         /\ CASE Ev.ev = "Enc" -> EncStep
+             [] Ev.ev = "EncBig" -> EncBigStep
              [] Ev.ev = "Dec" -> DecStep
              [] OTHER -> TRUE
         /\ l' = l + 1 /\ UNCHANGED fin
